@@ -1,11 +1,189 @@
 /-
-  C17 — property theorems only (placeholder until the refinement proof lands).
+  C17 — every subschema is addressable by its JSON Pointer (json_pointer.go).
+  Property theorems only; helper lemmas: JSV/Proofs/PtrEscape.lean, PtrIndex.lean, PtrWalk.lean,
+  PtrCover.lean.
 -/
-import JSV.Model.Validate
+import JSV.Proofs.PtrWalk
+import JSV.Proofs.PtrCover
 namespace JSV.C17
-open JSV Go
+open JSV Pointer
 
-theorem validateFuel_zero (env : VEnv) (stack : List NodeId) (i : GoVal) (s : NodeId) :
-    validateFuel env 0 stack i s = .fuel := rfl
+/-! ## The replacer tables are the ones of the Go source (regenerated facts) -/
+
+theorem escapePairs_table : escapePairs = [(['~'],['~','0']), (['/'],['~','1'])] := by decide
+theorem unescapePairs_table : unescapePairs = [(['~','0'],['~']), (['~','1'],['/'])] := by decide
+
+/-! ## escape / unescape -/
+
+/-- the escaper acts character by character: `~` ↦ `~0`, `/` ↦ `~1` -/
+theorem escape_chars (s : List Char) :
+    replaceAll escapePairs s =
+      s.flatMap (fun c => if c = '~' then ['~','0'] else if c = '/' then ['~','1'] else [c]) :=
+  replaceAll_escape s
+
+theorem unescape_escape (s : String) : unescapeSegment (escapeSegment s) = s :=
+  unescapeSegment_escapeSegment s
+
+theorem escape_no_slash (s : String) : '/' ∉ (escapeSegment s).toList := by
+  rw [toList_escapeSegment]
+  exact slash_not_mem_escChars _
+
+/-- parseJSONPointer inverts the rendering of any list of reference tokens (including tokens that
+    contain `~` and `/`, and the `contains '~'` shortcut of the parser) -/
+theorem parse_render (segs : List String) : Pointer.parse (Pointer.render segs) = .ok segs :=
+  Pointer.parse_render segs
+
+/-! ## the walk -/
+
+theorem walk_append (st : Store) (strict : Bool) (cur : Cursor) (a b : List String) :
+    walk st strict cur (a ++ b) = (walk st strict cur a).bind fun c => walk st strict c b :=
+  Pointer.walk_append st strict cur a b
+
+/-- one step reaches the designated child of a `*Schema` field (no side condition: when the single
+    form of `items` is set, `items` means that schema) -/
+theorem step_one (st : Store) (strict : Bool) (id : NodeId) (n : Node) (j : String) (c : NodeId)
+    (hn : st.get? id = some n) (hf : ChildField.one j (some c) ∈ n.childFields) :
+    step st strict (.node id) j = .ok (.node c) :=
+  step_node st strict id n j _ hn (lookupField_one n j c hf)
+
+/-- the canonical decimal numeral of an index in range selects that index (both index rules) -/
+theorem arrayIndex_toString (strict : Bool) (i len : Nat) (h : i < len) :
+    arrayIndex strict (toString i) len = some i :=
+  Pointer.arrayIndex_toString strict i len h
+
+/-- two steps reach element `i` of a `[]*Schema` field.  Side condition for the union field
+    `items`: the array form is consulted only when the single form is nil. -/
+theorem step_many (st : Store) (strict : Bool) (id : NodeId) (n : Node) (j : String)
+    (cs : List NodeId) (i : Nat)
+    (hn : st.get? id = some n) (hf : ChildField.many j (some cs) ∈ n.childFields)
+    (hitems : j = "items" → n.items = none) (hi : i < cs.length) :
+    walk st strict (.node id) [j, toString i] = .ok (.node cs[i]) := by
+  rw [walk_cons, step_node st strict id n j _ hn (lookupField_many n j cs hf hitems), Res.bind_ok,
+    walk_cons, step_nodes st strict cs i hi, Res.bind_ok, walk_nil]
+
+/-- two steps reach the value under key `k` of a `map[string]*Schema` field (any key string) -/
+theorem step_keyed (st : Store) (strict : Bool) (id : NodeId) (n : Node) (j : String)
+    (kvs : List (String × NodeId)) (k : String) (c : NodeId)
+    (hn : st.get? id = some n) (hf : ChildField.keyed j (some kvs) ∈ n.childFields)
+    (hk : Json.lookup k kvs = some c) :
+    walk st strict (.node id) [j, k] = .ok (.node c) := by
+  rw [walk_cons, step_node st strict id n j _ hn (lookupField_keyed n j kvs hf), Res.bind_ok,
+    walk_cons, step_nodeMap st strict kvs k c hk, Res.bind_ok, walk_nil]
+
+/-- Composition: a chain of schema-bearing fields (`Pointer.Path`: constructors `one`, `many`,
+    `keyed` with exactly the hypotheses of the three step theorems) from `root` to an existing
+    schema `target` is located by the rendered pointer. -/
+theorem deref_locates (st : Store) (strict : Bool) (root target : NodeId) (path : List String)
+    (hp : Path st root path target) (hex : (st.get? target).isSome = true) :
+    dereference st strict true root (render path) = .ok target := by
+  rw [dereference_of_walk st strict true root _ path _ (Pointer.parse_render path) (walk_path st strict hp)]
+  cases hg : st.get? target <;> simp_all [finish]
+
+/-- what `dereference` returns (repaired behaviour) is a schema that exists -/
+theorem deref_ok_exists (st : Store) (strict : Bool) (root t : NodeId) (ptr : String)
+    (h : dereference st strict true root ptr = .ok t) : (st.get? t).isSome = true :=
+  dereference_ok_exists st strict root t ptr h
+
+/-- a pointer whose walk ends at a nil `*Schema` is an error (`nilIsError = true`: the repaired
+    behaviour) … -/
+theorem deref_nil_is_error (st : Store) (strict : Bool) (root id : NodeId) (ptr : String)
+    (segs : List String) (hp : Pointer.parse ptr = .ok segs)
+    (hw : walk st strict (.node root) segs = .ok (.node id)) (hnil : st.get? id = none) :
+    dereference st strict true root ptr = .err := by
+  rw [dereference_of_walk st strict true root ptr segs _ hp hw]
+  simp [finish, hnil]
+
+/-- … whereas the code before the repair returned the nil pointer as a success -/
+theorem deref_nil_unrepaired (st : Store) (strict : Bool) (root id : NodeId) (ptr : String)
+    (segs : List String) (hp : Pointer.parse ptr = .ok segs)
+    (hw : walk st strict (.node root) segs = .ok (.node id)) :
+    dereference st strict false root ptr = .ok id := by
+  rw [dereference_of_walk st strict false root ptr segs _ hp hw]
+  simp [finish]
+
+/-- in particular: the pointer `/<keyword>` of an absent single-schema keyword is an error.
+    (`1000000000` is the model's nil pointer: it must not be a node of the store.) -/
+theorem deref_absent_keyword_is_error (st : Store) (strict : Bool) (id : NodeId) (n : Node) (j : String)
+    (hn : st.get? id = some n) (hf : ChildField.one j none ∈ n.childFields)
+    (hnil : st.get? 1000000000 = none) :
+    dereference st strict true id (render [j]) = .err := by
+  by_cases hj : j = "items"
+  · subst hj
+    have hitems : n.items = none := items_none_of_mem n hf
+    rw [dereference_of_walk st strict true id _ ["items"] (.nodes (n.itemsArray.getD []))
+      (Pointer.parse_render _)
+      (by rw [walk_cons, step_node st strict id n _ _ hn (lookupField_items_nil n hitems)]; rfl)]
+    rfl
+  · exact deref_nil_is_error st strict id 1000000000 _ [j] (Pointer.parse_render _)
+      (by rw [walk_cons, step_node st strict id n _ _ hn (lookupField_one_nil n j hf hj)]; rfl) hnil
+
+/-- strict (RFC 6901, repaired) index rule: the only token that selects element `i` is its
+    canonical decimal numeral — no sign, no leading zero, not "-" -/
+theorem arrayIndex_strict_digits (seg : String) (len i : Nat)
+    (h : arrayIndex true seg len = some i) : seg = toString i ∧ i < len :=
+  Pointer.arrayIndex_strict_digits seg len i h
+
+/-- a walk that reaches a non-schema field never succeeds, whatever follows -/
+theorem deref_dead (st : Store) (strict nie : Bool) (root : NodeId) (ptr : String) (a b : List String)
+    (hp : Pointer.parse ptr = .ok (a ++ b)) (hw : walk st strict (.node root) a = .ok .dead) :
+    dereference st strict nie root ptr = .err := by
+  rw [dereference_eq, hp, Res.bind_ok, Pointer.walk_append, hw, Res.bind_ok]
+  rcases walk_dead st strict b with h | h <;> rw [h] <;> rfl
+
+/-- `type` is such a field -/
+theorem step_type_dead (st : Store) (strict : Bool) (id : NodeId) (n : Node)
+    (hn : st.get? id = some n) : step st strict (.node id) "type" = .ok .dead :=
+  step_node st strict id n "type" .dead hn (by simp [lookupField])
+
+/-! ## coverage of the Go struct (regenerated field table) -/
+
+/-- every field of the Go struct whose type mentions `Schema` has one of the three shapes
+    `*Schema`, `[]*Schema`, `map[string]*Schema`, and is a schema-bearing field of the model under its
+    JSON name (`items` / `dependencies` for the `json:"-"` union fields), with the same shape.
+    A new `map[string][]*Schema` field in schema.go would break this theorem. -/
+theorem childFields_cover_generated :
+    ∀ f ∈ Generated.schemaFields, mentionsSchema f.2.1 = true →
+      (shapeOfGoType f.2.1).isSome = true ∧
+      (shapeOfGoType f.2.1, pointerName f) ∈ modelChildShapes := by
+  decide
+
+/-- conversely the model has no schema-bearing field that the Go struct lacks -/
+theorem childFields_only_generated : ∀ e ∈ modelChildShapes, e ∈ generatedChildShapes := by
+  decide
+
+/-! ## The hypotheses are satisfiable on non-trivial data
+
+Store for
+`{"properties": {"a/b": {"items": [{}, {"not": {}}]}, "m~n": {}}, "type": "object"}`. -/
+
+def exStore : Store := #[
+  { properties := some [("a/b", 1), ("m~n", 2)], type := "object" },   -- 0
+  { itemsArray := some [3, 4] },                                         -- 1
+  {},                                                                    -- 2
+  {},                                                                    -- 3
+  { not := some 5 },                                                     -- 4
+  {} ]                                                                   -- 5
+
+example : Path exStore 0 ["properties", "a/b", "items", toString 1, "not"] 5 :=
+  .keyed (n := exStore[0]) (kvs := [("a/b", 1), ("m~n", 2)]) (c := 1) rfl (by simp [Node.childFields, exStore]) rfl
+    (.many (n := exStore[1]) (cs := [3, 4]) (i := 1) rfl (by simp [Node.childFields, exStore]) (fun _ => rfl) (by decide)
+      (.one (n := exStore[4]) (c := 5) rfl (by simp [Node.childFields, exStore]) (.nil 5)))
+
+example : render ["properties", "a/b", "items", "1", "not"] = "/properties/a~1b/items/1/not" := by decide
+example : render ["properties", "m~n"] = "/properties/m~0n" := by decide
+example : dereference exStore true true 0 "/properties/a~1b/items/1/not" = .ok 5 := by decide
+example : dereference exStore true true 0 "/properties/m~0n" = .ok 2 := by decide
+/-- absent keyword: error after the repair, nil "success" before -/
+example : dereference exStore true true 0 "/properties/m~0n/not" = .err := by decide
+example : dereference exStore true false 0 "/properties/m~0n/not" = .ok 1000000000 := by decide
+/-- non-schema fields -/
+example : dereference exStore true true 0 "/type" = .err := by decide
+example : dereference exStore true true 0 "/type/0" = .err := by decide
+/-- index rules: the unrepaired rule accepted a sign -/
+example : arrayIndex true "+1" 2 = none := by decide
+example : arrayIndex false "+1" 2 = some 1 := by decide
+example : arrayIndex true "01" 2 = none := by decide
+example : arrayIndex true "-" 2 = none := by decide
+example : arrayIndex true "1" 2 = some 1 := by decide
 
 end JSV.C17
